@@ -321,11 +321,23 @@ class TorchOps(Ops):
                 self.clear("p", "store at a constant position of the row axis", st)
             elif tag == "C":
                 q = s = z = False
-        return tv.but(p=p, q=q, s=s, z=z, gen=gen, deg=join_deg(tv.deg, tvv.deg), poly=None, rng=tv.rng or tvv.rng,
-                      origin=tv.origin | tvv.origin)
+        out = tv.but(p=p, q=q, s=s, z=z, gen=gen, deg=join_deg(tv.deg, tvv.deg), poly=None, rng=tv.rng or tvv.rng,
+                     origin=tv.origin | tvv.origin)
+        if len(parts) == 1 and parts[0][0] == "index":
+            it = tv_of(parts[0][1])
+            if it is not None and it.kind == "tensor" and it.axes and tv.axes:
+                # x[indices] = v: a scatter of v at the given positions (used as an alternative spelling of one_hot(...).sum(0))
+                out = self.tag(out.but(origin=out.origin | it.origin), "index_put", st, axis=tv.axes[0], base_poly=tv.poly, base_axes=list(tv.axes), value_poly=tvv.poly,
+                               size_poly=self.size_tv(tv, 0).poly if tv.axes else None, in_idx_of=it.idx_of, in_origin=sorted(it.origin), aug=bool(aug))
+        return out
 
     # ====================================================================== attributes of values
     def value_attr(self, base, attr, node, env):
+        if isinstance(base, ListV) and base.kind == "tuple" and base.items is not None and len(base.items) == 2 and attr in ("values", "indices"):
+            # named result of sort / topk / max(dim) / min(dim) / kthvalue / median(dim)
+            return base.items[0 if attr == "values" else 1]
+        if isinstance(base, ListV) and base.kind == "tuple" and base.items is not None and len(base.items) == 3 and attr in ("U", "S", "V", "Vh"):
+            return base.items[{"U": 0, "S": 1, "V": 2, "Vh": 2}[attr]]
         if isinstance(base, TV) and base.note.startswith("finfo"):
             return TV(kind="pyfloat", dtype="Py", deg=F0, note="finfo." + attr)
         tv = tv_of(base)
